@@ -1,6 +1,7 @@
 #!/usr/bin/env python3
 # tools/seedtest.py <patch.diff> <Cxx> [quick|thorough] — apply a seeded change to /repo, run the check, always undo it.
 import subprocess, sys, os
+os.environ['GLMX_EVIDENCE_DIR'] = '/verif/build/seed_evidence'   # runs against a modified tree are not evidence
 patch, prop = sys.argv[1], sys.argv[2]
 tier = sys.argv[3] if len(sys.argv) > 3 else 'quick'
 st = subprocess.run(['git', '-C', '/repo', 'status', '--porcelain', '--untracked-files=no'], capture_output=True, text=True).stdout.strip()
